@@ -2,6 +2,7 @@ package props
 
 import (
 	"bytes"
+	"crypto/md5"
 	"fmt"
 	"io/ioutil"
 	"os"
@@ -9,6 +10,8 @@ import (
 	"path/filepath"
 	"sort"
 	"strings"
+	"verifh/envfs"
+	"verifh/ref/rpar2"
 
 	"github.com/akalin/gopar/par1"
 	"github.com/akalin/gopar/par2"
@@ -36,6 +39,7 @@ type c17Case struct {
 	DupK        int    `json:"dupk,omitempty"`        // with Dup: which input is mentioned twice (index into the listed order)
 	DupAt       int    `json:"dupat,omitempty"`       // with Dup: 0 = the second mention goes to the end of the list; k>0 = it is inserted at position k-1
 	Dup         string `json:"dup,omitempty"`         // the first input is listed a second time (at the end), spelled in this style
+	Tie         int    `json:"tie,omitempty"`         // PAR2: two inputs whose file ids agree in their Tie most significant bytes (Tie > 0) or -Tie least significant bytes (Tie < 0), plus a third file, in all six listing orders
 	Stale       int    `json:"stale,omitempty"`       // the set directory already holds output files: 1 = longer garbage under the same names, 2 = shorter, 3 = unrelated text; 4 = a real earlier Create over the same inputs with ONE block; 5 = a real earlier identical Create whose recovery files were then deleted / corrupted
 }
 
@@ -329,8 +333,119 @@ func c17RunDup(c *c17Case, r *core.Rec) {
 	r.NontrivialCase()
 }
 
+// File ids are compared as 128-bit numbers, most significant byte last. A comparison that looks at part of the id only
+// (the top quadword, the low quadword, the first differing byte of one half) is a total order on almost all inputs; it
+// shows on ids that agree in exactly the part it looks at. c17TiePair finds two names whose ids agree in k bytes at the
+// top (k > 0) or bottom (k < 0) of the id for the fixed content below; k = 8 at the top is a stored pair (a 2^32-step
+// search), the others are found by a birthday search of at most a few million MD5s.
+func c17TieContent(tail byte) []byte {
+	data := make([]byte, 16384+64)
+	for i := 0; i < 16384; i++ {
+		data[i] = byte(i*7 + i/256)
+	}
+	for i := 16384; i < len(data); i++ {
+		data[i] = tail + byte(i)
+	}
+	return data
+}
+
+var c17TieCache = map[int][2]string{8: {"ea294c8c11ecf2a9.bin", "8d0431380f8a31e6.bin"}}
+
+func c17TiePair(k int) ([2]string, bool) {
+	if p, ok := c17TieCache[k]; ok {
+		return p, true
+	}
+	content := c17TieContent(1)
+	h16 := md5.Sum(content[:16384])
+	n := k
+	if n < 0 {
+		n = -n
+	}
+	if n > 5 {
+		return [2]string{}, false
+	}
+	seen := map[string]string{}
+	for i := 0; i < 1<<23; i++ {
+		name := fmt.Sprintf("t%x.bin", i)
+		id := rpar2.FileID(h16, uint64(len(content)), name)
+		key := string(id[16-n:])
+		if k < 0 {
+			key = string(id[:n])
+		}
+		if other, ok := seen[key]; ok {
+			oid := rpar2.FileID(h16, uint64(len(content)), other)
+			if oid != id {
+				c17TieCache[k] = [2]string{other, name}
+				return c17TieCache[k], true
+			}
+		}
+		seen[key] = name
+	}
+	return [2]string{}, false
+}
+
+func c17RunTie(c *c17Case, r *core.Rec) {
+	pair, ok := c17TiePair(c.Tie)
+	if !ok {
+		r.Note(fmt.Sprintf("no id tie of %d bytes found", c.Tie))
+		return
+	}
+	c1, c2 := c17TieContent(1), c17TieContent(2)
+	h16 := md5.Sum(c1[:16384])
+	id1, id2 := rpar2.FileID(h16, uint64(len(c1)), pair[0]), rpar2.FileID(h16, uint64(len(c2)), pair[1])
+	n := c.Tie
+	if n < 0 {
+		n = -n
+	}
+	if (c.Tie > 0 && !bytes.Equal(id1[16-n:], id2[16-n:])) || (c.Tie < 0 && !bytes.Equal(id1[:n], id2[:n])) || id1 == id2 {
+		r.Violatef("harness:tie-pair-does-not-tie", "%v: %x %x", pair, id1, id2)
+		return
+	}
+	files := map[string][]byte{"/d/" + pair[0]: c1, "/d/" + pair[1]: c2, "/d/other.dat": bytes.Repeat([]byte("some other file "), 500)}
+	names := []string{"/d/" + pair[0], "/d/" + pair[1], "/d/other.dat"}
+	var first map[string][]byte
+	for pi, pm := range permutations(3) {
+		fs := envfs.New()
+		for p, b := range files {
+			fs.Put(p, b)
+		}
+		in := []string{names[pm[0]], names[pm[1]], names[pm[2]]}
+		var err error
+		if pn := core.Catch(func() {
+			err = par2.VerifCreate(fs, "/d/s.par2", in, par2.CreateOptions{SliceByteCount: 1024, NumParityShards: 3, NumGoroutines: c.G})
+		}); pn != nil {
+			r.Violate("create-panic:"+pn.Frame, pn.Value+"\n"+pn.Stack)
+			return
+		}
+		r.AddTransitions(1)
+		if err != nil {
+			r.Violatef("create-failed-under-variation:"+errClass(err), "inputs %v (file ids agree in %d bytes): %v", in, c.Tie, err)
+			return
+		}
+		out := map[string][]byte{}
+		for _, w := range fs.Writes() {
+			out[w.Path] = w.Data
+		}
+		if pi == 0 {
+			first = out
+			continue
+		}
+		if d := envfs.Diff(first, out); len(d) > 0 {
+			r.Violatef("create-output-varies", "two inputs whose file ids agree in %d bytes (%x, %x): listing order %v gives other bytes in %v than listing order 0,1,2", c.Tie, id1, id2, pm, d)
+			return
+		}
+	}
+	r.AddStates(6)
+	r.Outcome(fmt.Sprintf("tie %d", c.Tie))
+	r.NontrivialCase()
+}
+
 func c17Run(ci interface{}, r *core.Rec) {
 	c := ci.(*c17Case)
+	if c.Tie != 0 {
+		c17RunTie(c, r)
+		return
+	}
 	if c.Dup != "" {
 		c17RunDup(c, r)
 		return
@@ -395,6 +510,11 @@ func c17Run(ci interface{}, r *core.Rec) {
 }
 
 func c17Gen(g *core.Gen) {
+	for _, k := range []int{1, 2, 3, 4, 5, 8, -1, -2, -3, -4, -5} {
+		for _, gg := range []int{1, 3} {
+			g.Emit(&c17Case{Fmt: "p2", Tie: k, G: gg})
+		}
+	}
 	cwds := []string{"set", "parent", "unrelated"}
 	spells := []string{"rel", "abs", "dotslash", "dblslash", "updown"}
 	for _, f := range []string{"p2", "p1"} {
